@@ -11,6 +11,7 @@ import (
 	"pgregory.net/rapid"
 	"verifharness/ev"
 	"verifharness/pipeline"
+	"verifharness/yanggen"
 )
 
 const c25Runs = 3
@@ -119,9 +120,10 @@ func TestC25_Random(t *testing.T) {
 		"(corpus variants count as such). Key = YANG text + binary + flags.")
 	rec.Assume("Go randomises map iteration per process start; 3 processes per case sample that 'schedule' (DESIGN.md section 8, C25).")
 	registerF28(t, rec)
+	excluded := registerF23(t, rec)
 	h := newHealth()
 	rapid.Check(t, func(rt *rapid.T) {
-		c := drawCase(rt, true, nil, false)
+		c := drawCase(rt, true, excluded, false)
 		defer c.cleanup()
 		proto := rapid.IntRange(0, 99).Draw(rt, "binary") < 35
 		sc, err := pipeline.NewScratch("c25")
@@ -146,6 +148,11 @@ func TestC25_Random(t *testing.T) {
 			rt.Fatalf("HARNESS-BUG: %s (%s)", harness, cmd)
 		}
 		h.note(c, gf)
+		if c.schema != nil {
+			for cl, n := range c.schema.ExcludedDraws {
+				rec.Add("excluded_class_draws:"+cl, int64(n))
+			}
+		}
 		cls := c.classes(flagClasses(gf)...)
 		if proto {
 			cls = append(c.classes(), "gen:proto")
@@ -210,44 +217,66 @@ var f28Files = map[string]string{
 	"wd.yang": mod("wd", "  import wa { prefix wa; }\n  augment \"/wa:c\" { leaf d { type string; } }\n"),
 }
 
-var (
-	f28Once   sync.Once
-	f28Bad    bool
-	f28Detail string
-)
+type nondetWitness struct {
+	once   sync.Once
+	bad    bool
+	detail string
+}
 
-// registerF28 replays the witness of F28: three modules augmenting one container; the same
-// command is run up to 16 times until two outputs differ.
-func registerF28(t *testing.T, rec *ev.Rec) {
-	f28Once.Do(func() {
-		sc, err := pipeline.NewScratch("f28")
+var nondet = map[string]*nondetWitness{f28: {}, f23: {}}
+
+const f23 = "F23-identity-name-clash"
+
+// registerNondet replays a determinism witness: the same command is run up to 16 times until two
+// outputs differ. It reports whether the finding is active.
+func registerNondet(t *testing.T, rec *ev.Rec, id string, files map[string]string, roots []string) bool {
+	w := nondet[id]
+	w.once.Do(func() {
+		sc, err := pipeline.NewScratch("nondet")
 		if err != nil {
-			f28Detail = "HARNESS-BUG: " + err.Error()
+			w.detail = "HARNESS-BUG: " + err.Error()
 			return
 		}
 		defer sc.Remove()
 		dir := sc.Sub("yang")
-		for n, s := range f28Files {
+		for n, s := range files {
 			os.WriteFile(filepath.Join(dir, n), []byte(s), 0o644)
 		}
-		in := pipeline.Input{Name: "witness:" + f28, Dir: dir, Roots: []string{"wa.yang", "wb.yang", "wc.yang", "wd.yang"}}
+		in := pipeline.Input{Name: "witness:" + id, Dir: dir, Roots: roots}
 		diff, rejected, cmd, harness, ta, tb := runN(sc, 16, func(out string) *pipeline.Result {
 			return pipeline.RunGenerator(in, pipeline.Flags{FakeRoot: true}, out, "gp")
 		})
 		switch {
 		case harness != "" || rejected:
-			f28Detail = "HARNESS-BUG: witness could not run: " + harness + " " + cmd
+			w.detail = "HARNESS-BUG: witness could not run: " + harness + " " + cmd
 		case diff != "":
-			f28Bad = true
-			f28Detail = fmt.Sprintf("%s (only the order of Augmented arrays differs: %v)", diff, onlyAugmentedOrder(ta, tb))
+			w.bad = true
+			w.detail = fmt.Sprintf("%s (only the order of Augmented arrays differs: %v)", diff, onlyAugmentedOrder(ta, tb))
 		default:
-			f28Detail = "16 runs gave identical output"
+			w.detail = "16 runs gave identical output"
 		}
 	})
-	if strings.HasPrefix(f28Detail, "HARNESS-BUG") {
-		t.Fatalf("%s", f28Detail)
+	if strings.HasPrefix(w.detail, "HARNESS-BUG") {
+		t.Fatalf("%s", w.detail)
 	}
-	rec.Witness(f28, func() (bool, string) { return f28Bad, f28Detail })
+	rec.Witness(id, func() (bool, string) { return w.bad, w.detail })
+	return rec.Active(id)
+}
+
+// registerF28 replays the witness of F28: three modules augmenting one container.
+func registerF28(t *testing.T, rec *ev.Rec) {
+	registerNondet(t, rec, f28, f28Files, []string{"wa.yang", "wb.yang", "wc.yang", "wd.yang"})
+}
+
+// registerF23 replays F23 as a determinism witness: with two same-named identities under one base
+// the entry that wins (and its DefiningModule) follows map order. Returns the classes to exclude.
+func registerF23(t *testing.T, rec *ev.Rec) map[string]bool {
+	for _, w := range witnesses {
+		if w.id == f23 && registerNondet(t, rec, f23, w.files, w.roots) {
+			return map[string]bool{yanggen.ClIdentSameName: true}
+		}
+	}
+	return nil
 }
 
 // augmentStatements counts the augment statements of the input (trigger of F28: at least two).
